@@ -77,3 +77,18 @@ Proof.
   intros sp v n H s Hs. pose proof (sam_bounds_within_aw sp v n H s Hs). lia.
 Qed.
 Print Assumptions C12_model_address_literals.
+
+(* Part 3: universal, for EVERY input tree the model accepts: every rule of every router's address map has
+   0 <= start < end <= 2^id_bits.  A start index always fits the identifier field; the ONLY end index that does
+   not is an exclusive end equal to 2^id_bits exactly (the endpoint count is a power of two) -- the known
+   finding C12:field-overflow:table-end=2^id_bits, shown here to be the only possible overflow of a table bound. *)
+Theorem C12_model_table_bounds : forall sp v n, run_yaml sp v = Ok n ->
+  forall r nm n1 n2 iw rules, In r (n_rts n) -> r_map r = Some (nm, (n1, (n2, (iw, rules)))) ->
+  exists b, n_id_bits n = Some b /\
+    forall ru, In ru rules -> 0 <= st ru < en ru /\ st ru < 2 ^ b /\ (en ru < 2 ^ b \/ en ru = 2 ^ b).
+Proof.
+  intros sp v n H r nm n1 n2 iw rules Hr Hm.
+  destruct (netlist_table_bounds sp v n H r nm n1 n2 iw rules Hr Hm) as (b & Hb & Hall).
+  exists b. split; [exact Hb|]. intros ru Hru. pose proof (Hall ru Hru). lia.
+Qed.
+Print Assumptions C12_model_table_bounds.
